@@ -111,6 +111,9 @@ pub fn subjects(thorough: bool) -> Vec<Subject> {
     let n = crossing(1, Compression::None, &window_logical_entries) + 30;
     let l = window_logical(1, n, Compression::None);
     out.push(subject_from_bytes("lib-leaf-spill-none", write_lib(&l, Api::Sync).unwrap(), json!({"lib":"window","family":1,"n":n,"comp":"none"}), if thorough { 40 } else { 24 }));
+    // library-written with several leaves at the default leaf size (more than 2 x 4096 entries)
+    let l = window_logical(0, 9000, Compression::None);
+    out.push(subject_from_bytes("lib-three-leaves-none", write_lib(&l, Api::Sync).unwrap(), json!({"lib":"window","family":0,"n":9000,"comp":"none"}), if thorough { 30 } else { 18 }));
     // foreign
     let specs = [
         Spec { order: 0, gap: 0, root_gap: false, shape: Shape::Leaves, run: 3, offs: Offs::Contiguous, n: 7, meta: 1, comp: 1, base: 0, hv: 0 },
